@@ -10,6 +10,14 @@ TRUST = ("trusts the Go type checker, go/cfg, go/ssa, the documented semantics o
 
 # property id -> (claimed text, technique, design_ref)   (only built properties appear here)
 CLAIMS = {
+    "C13": (
+        "Wiring only: in every regime package each function that validates or normalises a *tax.Identity is reachable from the function the "
+        "regime definition registers as Validator / Normalizer through that dispatcher's `case *tax.Identity`; every regime that validates "
+        "tax identities normalises them in its registered Normalizer's identity case, which reaches the common tax.NormalizeIdentity (listed "
+        "exception: MX, whose alphabet the common routine would damage); Identity.Normalize falls back to the common routine without a regime. "
+        "Does not check any check-digit algorithm against its national specification, nor idempotence of normalisation as a value property.",
+        "static analysis: registry/dispatch reachability over resolved function references, sibling agreement across regimes",
+        "§4 C13"),
     "C04": (
         "Decides necessary conditions of the calculate/serialise fixpoint: fields the tax-total recalculation accumulates into are reset "
         "unconditionally first, and document totals are reset before being read; every range over a map in library code is classified "
